@@ -964,9 +964,9 @@ def run(ctx, proofs):
         "panics_in_process": stats["panics_in_process"],
         "failing_projects": len(failing),
         "failures_by_clause": dict(by_clause),
-        "open_statements": ["C04_desugar_metas_from_input_full_statement (kept as the explicit hypothesis "
-                            "`desugar_metas_from_input` of the provenance theorems; observed by the token-boundary and "
-                            "construct clauses on every desugared statement)"],
+        "open_statements": ["meta provenance through IR lifting and SSA (lift_metas_from_ast, ssa_metas) is the explicit second "
+                            "hypothesis of C04_labels_wellformed_end_to_end; the desugarer's part (desugar_metas_from_input) is "
+                            "proved (Proofs.DesugarMetas, cited as C04_desugar_metas_from_input / C04_desugared_ranges_wellformed)"],
         "samples": [{"origin": sample.get("origin"), "style": sample.get("style"),
                      "main.circom": sample["files"]["main.circom"][:1200]}] if sample else [],
     })
@@ -974,8 +974,9 @@ def run(ctx, proofs):
         "parser_ranges_wellformed: LALRPOP's @L/@R are byte offsets into the pre-processed text with start <= end, inside "
         "the text, on scalar boundaries — hypothesis of the Coq theorems, observed here on every label (range, UTF-8 "
         "boundary and token-boundary clauses against an independent Python lexer of the ORIGINAL text)",
-        "desugar_metas_from_input (every meta of a desugared statement is a meta of the input AST) is a hypothesis, "
-        "observed through the construct clause on tuple / anonymous-component statements",
+        "meta provenance through IR lifting and SSA (every IR node carries the meta of the AST node it comes from, or "
+        "Meta::default()) is a hypothesis, observed through the token-boundary and construct clauses; the desugarer's part "
+        "is proved (agent-C18's Proofs.DesugarMetas)",
         "codespan's terminal renderer is a black box: the header line `file:line:col` of every rendered diagnostic is "
         "compared with the recomputation, the snippet drawing is not",
         "columns are 1-based counts of Unicode scalar values from the line start (lines end at LF; CR counts as a "
